@@ -1,0 +1,55 @@
+//go:build verif
+
+// Contracts for package tokenizers (comment-only; read by /verif's VC generator).
+package tokenizers
+
+// Assumption A1: the only scanner implementation is io.StringScanner (a user-written scanner is outside
+// every property's quantifier); calls through io.IScanner are resolved to its contracts.
+//@ assume-impl io.IScanner = *io.StringScanner
+//
+//@ spec sc(s io.IScanner) *io.StringScanner = s.(*io.StringScanner)
+//@ spec isScanner(s io.IScanner) bool = typeof(s) == typeid("*io.StringScanner") && scanInv(sc(s))
+//
+// cursor = number of characters consumed so far; the end-of-input slot does not count
+//@ spec cur(s io.IScanner) int = min(sc(s).position + 1, len(sc(s).content))
+//
+// the token's text is exactly the characters text[k0, k1) of the scanner content
+//@ pred spans(v string, s io.IScanner, k0 int, k1 int) = k0 <= k1 && k1 <= len(sc(s).content) && rlen(v) == k1 - k0 &&
+//@     (forall i int :: 0 <= i && i < k1 - k0 ==> v[i] == sc(s).content[k0 + i])
+//
+// What every tokenizer state promises (C04 lossless, C12 position of the first character):
+// called with at least one character left, it returns a token whose value is exactly the text it consumed
+// and whose line/column are those of its first character in a forward scan.
+//@ interface ITokenizerState.NextToken(self, scanner, tokenizer)
+//@   requires self != nil && isScanner(scanner) && sc(scanner).position + 1 < len(sc(scanner).content)
+//@   requires forall i int :: 0 <= i && i < len(sc(scanner).content) ==> scalar(sc(scanner).content[i])
+//@   ensures[C04,C12] result != nil && isScanner(scanner) && sc(scanner).content == old(sc(scanner).content)
+//@   ensures[C04] spans(result.value, scanner, old(cur(scanner)), cur(scanner))
+//@   ensures[C12] result.line == L(seq(sc(scanner).content), old(cur(scanner))) && result.column == C(seq(sc(scanner).content), old(cur(scanner)))
+//@   assigns sc(scanner).position, sc(scanner).line, sc(scanner).column
+//@   nopanic
+//
+//@ func NewToken
+//@   ensures[C04,C12] fresh(result) && result.typ == typ && result.value == value && result.line == line && result.column == column
+//@   assigns nothing
+//@   nopanic
+//@ func (c *Token) Type
+//@   requires c != nil
+//@   ensures result == c.typ
+//@   assigns nothing
+//@   nopanic
+//@ func (c *Token) Value
+//@   requires c != nil
+//@   ensures result == c.value
+//@   assigns nothing
+//@   nopanic
+//@ func (c *Token) Line
+//@   requires c != nil
+//@   ensures result == c.line
+//@   assigns nothing
+//@   nopanic
+//@ func (c *Token) Column
+//@   requires c != nil
+//@   ensures result == c.column
+//@   assigns nothing
+//@   nopanic
